@@ -78,6 +78,30 @@ OPS = {
     "copy_shallow_data": (lambda a: a.copy(deep=False, data=np.asarray(a.values) * 3 - 1), ()),
     "pipe": (lambda a: a.pipe(lambda x: x * 2), ()),
     "compute": (lambda a: a.compute(), ()),
+    # rarely used keyword arguments and less common methods (all along non-grid dims)
+    "isel_drop": (lambda a: a.isel(t=0, drop=True), ("t",)),
+    "sel_drop": (lambda a: a.sel(t=a["t"].values[1], drop=True), ("t",)),
+    "squeeze": (lambda a: a.isel(t=[1]).squeeze("t"), ("t",)),
+    "squeeze_drop": (lambda a: a.isel(t=[1]).squeeze("t", drop=True), ("t",)),
+    "squeeze_all_drop": (lambda a: a.isel(t=[0]).squeeze(drop=True), ("t",)),
+    "isel_missing_dims": (lambda a: a.isel({"t": 0, "no_such_dim": 0}, missing_dims="ignore"), ("t",)),
+    "reset_coords_drop": (lambda a: a.isel(t=0).reset_coords(drop=True), ("t",)),
+    "mean_keep_attrs": (lambda a: a.mean("t", keep_attrs=True), ("t",)),
+    "sum_skipna": (lambda a: a.sum("t", skipna=False), ("t",)),
+    "tail": (lambda a: a.tail(t=2), ("t",)),
+    "roll": (lambda a: a.roll(t=1, roll_coords=True), ("t",)),
+    "swap_dims": (lambda a: a.assign_coords(s_aux=("t", np.arange(a.sizes["t"]))).swap_dims({"t": "s_aux"}).swap_dims({"s_aux": "t"}), ("t",)),
+    "argmax": (lambda a: a.argmax("t"), ("t",)),
+    "reindex": (lambda a: a.reindex(t=a["t"].values[::-1]), ("t",)),
+    "weighted_mean": (lambda a: a.weighted(xr.DataArray(np.arange(1.0, a.sizes["t"] + 1), dims=["t"])).mean("t"), ("t",)),
+    "groupby_mean": (lambda a: a.groupby("t").mean(), ("t",)),
+    "drop_isel": (lambda a: a.drop_isel(t=[0]), ("t",)),
+    "assign_attrs": (lambda a: a.assign_attrs(units="K"), ()),
+    # (grid lost on the installed xarray: known findings)
+    "idxmax": (lambda a: a.idxmax("t"), ("t",)),
+    "dot": (lambda a: a.dot(xr.DataArray(np.ones(a.sizes["t"]), dims=["t"])), ("t",)),
+    "coarsen_mean": (lambda a: a.coarsen(t=a.sizes["t"]).mean(), ("t",)),
+    "broadcast_like": (lambda a: a.isel(t=0, drop=True).broadcast_like(a), ("t",)),
 }
 
 # what the property names: every op above must yield a UxDataArray on the same grid
